@@ -203,15 +203,20 @@ class SuperProxy:
 
 
 class Lambda:
-    def __init__(self, node: ast.Lambda, env: dict, fi: Optional[FuncInfo]) -> None:
+    def __init__(self, node: ast.Lambda, env: dict, fi: Optional[FuncInfo], defaults: Optional[dict] = None) -> None:
         self.node, self.env, self.fi = node, env, fi
+        self.defaults = defaults or {}        # evaluated when the lambda expression is evaluated
 
 
 class LocalFunc:
     """A function defined inside a function: evaluated in the defining scope's environment."""
 
-    def __init__(self, node: ast.FunctionDef, env: dict, fi: Optional[FuncInfo]) -> None:
+    def __init__(self, node: ast.FunctionDef, env: dict, fi: Optional[FuncInfo], defaults: Optional[dict] = None,
+                 cached: bool = False) -> None:
         self.node, self.env, self.fi = node, env, fi
+        self.defaults = defaults or {}        # evaluated when the def statement runs
+        self.cached = cached                  # decorated with functools.lru_cache / cache
+        self.memo: list[tuple[Any, Any, Any]] = []
 
 
 _CMP: dict[type, Callable[[Any, Any], bool]] = {
@@ -234,7 +239,7 @@ def reset_global_state() -> None:
     GLOBAL_STATE["class_attrs"].clear()
 
 
-_CACHE_DECORATORS = ("lru_cache", "cache", "functools.lru_cache", "functools.cache", "cached_property")
+_CACHE_DECORATORS = ("lru_cache", "cache", "functools.lru_cache", "functools.cache")
 
 
 class Interp:
@@ -460,6 +465,13 @@ class Interp:
             **{f"re.{c}": getattr(_re2, c) for c in ("IGNORECASE", "I", "MULTILINE", "M", "DOTALL", "S", "VERBOSE", "X",
                                                      "ASCII", "A", "UNICODE", "U")},
             "operator.methodcaller": methodcaller,
+            "contextlib.suppress": lambda *excs: _Suppress({(e.ci.name if isinstance(e, ClassRef) else
+                                                             (e[1] if isinstance(e, tuple) else getattr(e, "name", str(e)).split(".")[-1]))
+                                                            for e in excs}),
+            "contextlib.nullcontext": lambda v=None: _Suppress(set()) if v is None else
+            (_ for _ in ()).throw(AnalysisError("ABSINT", "nullcontext(value) outside fragment")),
+            "io.StringIO": lambda *a: __import__("io").StringIO(*a),
+            "io.BytesIO": lambda *a: __import__("io").BytesIO(*a),
             "decimal.Decimal": number_ctor("decimal", "Decimal"),
             "fractions.Fraction": number_ctor("fractions", "Fraction"),
             "math.prod": prod,
@@ -554,26 +566,22 @@ class Interp:
         return obj
 
     def call_local(self, f: "LocalFunc", args: list[Any], kwargs: dict[str, Any]) -> Any:
+        if f.cached:
+            key = (self.hash_key(tuple(args)), tuple(sorted((k, self.hash_key(v)) for k, v in kwargs.items())))
+            for k0, a0, r0 in f.memo:
+                if k0 == key and all(self._eq(x, y) for x, y in zip(a0, args)):
+                    return r0
+            f.cached = False
+            try:
+                res = self.call_local(f, args, kwargs)
+            finally:
+                f.cached = True
+            f.memo.append((key, list(args), res))
+            return res
         a = f.node.args
-        names = [x.arg for x in a.posonlyargs + a.args]
         e2 = dict(f.env)                      # enclosing scope (shared mutable objects stay shared)
         e2[f.node.name] = f
-        defaults = a.defaults
-        dnames = names[len(names) - len(defaults):] if defaults else []
-        for nm, d in zip(dnames, defaults):
-            e2[nm] = self.eval(d, f.env, f.fi)
-        for nm, v in zip(names, args):
-            e2[nm] = v
-        if a.vararg is not None:
-            e2[a.vararg.arg] = tuple(args[len(names):])
-        elif len(args) > len(names):
-            raise AnalysisError("ABSINT", f"too many arguments for local {f.node.name}")
-        if a.kwarg is not None:
-            known = set(names) | {x.arg for x in a.kwonlyargs}
-            e2[a.kwarg.arg] = {k: v for k, v in kwargs.items() if k not in known}
-            e2.update({k: v for k, v in kwargs.items() if k in known})
-        else:
-            e2.update(kwargs)
+        e2.update(self._bind_local(a, f.node.name, f.defaults, args, kwargs))
         self.depth += 1
         if self.depth > self.max_depth:
             self.depth -= 1
@@ -581,6 +589,7 @@ class Interp:
         is_gen = self._is_generator(f.node)
         if is_gen:
             e2["__yielded__"] = []
+        outer_names = [nm for st_ in ast.walk(f.node) if isinstance(st_, ast.Nonlocal) for nm in st_.names]
         try:
             try:
                 self.exec_block(f.node.body, e2, f.fi)
@@ -588,7 +597,52 @@ class Interp:
                 return iter(e2["__yielded__"]) if is_gen else r.value
             return iter(e2["__yielded__"]) if is_gen else None
         finally:
+            for nm in outer_names:           # `nonlocal x`: the enclosing scope sees the assignment
+                if nm in e2:
+                    f.env[nm] = e2[nm]
             self.depth -= 1
+
+    def _def_defaults(self, a: ast.arguments, env: dict[str, Any], fi: Optional[FuncInfo]) -> dict[str, Any]:
+        names = [x.arg for x in a.posonlyargs + a.args]
+        out: dict[str, Any] = {}
+        for nm, d in zip(names[len(names) - len(a.defaults):] if a.defaults else [], a.defaults):
+            out[nm] = self.eval(d, env, fi)
+        for kw, d in zip(a.kwonlyargs, a.kw_defaults):
+            if d is not None:
+                out[kw.arg] = self.eval(d, env, fi)
+        return out
+
+    def _bind_local(self, a: ast.arguments, label: str, defaults: dict[str, Any], args: list[Any],
+                    kwargs: dict[str, Any]) -> dict[str, Any]:
+        """Python's argument binding for a nested function or lambda (TypeError as Python raises it)."""
+        names = [x.arg for x in a.posonlyargs + a.args]
+        kwonly = [x.arg for x in a.kwonlyargs]
+        env: dict[str, Any] = {}
+        if len(args) > len(names) and a.vararg is None:
+            raise AbsRaise(f"TypeError: {label}() takes {len(names)} positional arguments but {len(args)} were given")
+        for nm, v in zip(names, args):
+            env[nm] = v
+        if a.vararg is not None:
+            env[a.vararg.arg] = tuple(args[len(names):])
+        extra: dict[str, Any] = {}
+        for k, v in kwargs.items():
+            if k in env and k in names:
+                raise AbsRaise(f"TypeError: {label}() got multiple values for argument {k!r}")
+            if k in names or k in kwonly:
+                env[k] = v
+            elif a.kwarg is not None:
+                extra[k] = v
+            else:
+                raise AbsRaise(f"TypeError: {label}() got an unexpected keyword argument {k!r}")
+        if a.kwarg is not None:
+            env[a.kwarg.arg] = extra
+        for nm in names + kwonly:
+            if nm not in env:
+                if nm in defaults:
+                    env[nm] = defaults[nm]
+                else:
+                    raise AbsRaise(f"TypeError: {label}() missing required argument {nm!r}")
+        return env
 
     def _bind(self, fi: FuncInfo, args: list[Any], kwargs: dict[str, Any]) -> dict[str, Any]:
         a = fi.node.args
@@ -662,10 +716,41 @@ class Interp:
                 return  # docstring
             self.eval(st.value, env, fi)
             return
-        if isinstance(st, ast.Pass):
+        if isinstance(st, (ast.Pass, ast.Nonlocal)):
+            return
+        if isinstance(st, ast.Global):
+            raise AnalysisError("ABSINT", "global statement outside fragment", loc(fi.unit.path, st) if fi else "")
+        if isinstance(st, ast.Delete):
+            for t_ in st.targets:
+                if isinstance(t_, ast.Name):
+                    env.pop(t_.id, None)
+                elif isinstance(t_, ast.Subscript):
+                    obj_ = self.eval(t_.value, env, fi)
+                    if getattr(obj_, "_frozen", False):
+                        raise AbsMutation(f"del on an input container ({src(t_)})", loc(fi.unit.path, st) if fi else "")
+                    idx_ = self.eval(t_.slice, env, fi) if not isinstance(t_.slice, ast.Slice) else slice(
+                        self.eval(t_.slice.lower, env, fi) if t_.slice.lower else None,
+                        self.eval(t_.slice.upper, env, fi) if t_.slice.upper else None,
+                        self.eval(t_.slice.step, env, fi) if t_.slice.step else None)
+                    try:
+                        del obj_[self.canon_key(obj_, idx_) if isinstance(obj_, dict) else idx_]
+                    except (KeyError, IndexError) as exc:
+                        raise AbsRaise(f"{type(exc).__name__} at {src(t_)}", loc(fi.unit.path, st) if fi else "") from exc
+                else:
+                    raise AnalysisError("ABSINT", f"del target outside fragment: {src(t_)}", loc(fi.unit.path, st) if fi else "")
             return
         if isinstance(st, ast.Raise):
             what = src(st.exc) if st.exc is not None else "re-raise"
+            if isinstance(st.exc, ast.Name) and st.exc.id in env:
+                held = env[st.exc.id]
+                if isinstance(held, AExc):
+                    what = held.text                  # `err = SomeError(...)` ... `raise err`
+                elif isinstance(held, AbsRaise):
+                    what = held.what                  # `except X as e: ... raise e`
+                elif isinstance(held, tuple) and len(held) == 2 and held[0] == "exc":
+                    what = held[1]
+                elif isinstance(held, ClassRef):
+                    what = held.ci.name
             raise AbsRaise(what, loc(fi.unit.path, st) if fi else "")
         if isinstance(st, ast.For):
             it = self.iterate(self.eval(st.iter, env, fi))
@@ -696,11 +781,25 @@ class Interp:
                     continue
             return
         if isinstance(st, ast.With):
+            swallow: set[str] = set()
             for item in st.items:
                 v = self.eval(item.context_expr, env, fi)
+                if isinstance(v, _Suppress):
+                    swallow |= v.kinds
+                    v = None
+                elif isinstance(v, AObj):
+                    raise AnalysisError("ABSINT", f"with-statement over an object of the analysed code ({src(item.context_expr)}) "
+                                                  f"outside fragment", loc(fi.unit.path, st) if fi else "")
                 if item.optional_vars is not None:
                     self.assign(item.optional_vars, v, env, fi)
-            self.exec_block(st.body, env, fi)
+            try:
+                self.exec_block(st.body, env, fi)
+            except AbsRaise as exc:
+                import re as _re
+                mk = _re.match(r"[A-Za-z_][A-Za-z0-9_.]*", exc.what.strip())
+                kind_ = (mk.group(0) if mk else "Exception").split(".")[-1]
+                if not (({kind_} | _EXC_PARENTS.get(kind_, {"Exception"})) & swallow):
+                    raise
             return
         if isinstance(st, ast.Try):
             try:
@@ -744,7 +843,15 @@ class Interp:
                     return
             return
         if isinstance(st, ast.FunctionDef):
-            env[st.name] = LocalFunc(st, env, fi)
+            cached = False
+            for d_ in st.decorator_list:
+                dn = ast.unparse(d_).split("(")[0]
+                if dn in _CACHE_DECORATORS:
+                    cached = True
+                else:
+                    raise AnalysisError("ABSINT", f"decorator {dn} on a nested function outside fragment",
+                                        loc(fi.unit.path, st) if fi else "")
+            env[st.name] = LocalFunc(st, env, fi, self._def_defaults(st.args, env, fi), cached)
             return
         if isinstance(st, ast.Import):
             for a in st.names:
@@ -782,8 +889,20 @@ class Interp:
             env[t.id] = v
         elif isinstance(t, (ast.Tuple, ast.List)):
             vals = list(self.iterate(v))
+            stars = [i for i, e in enumerate(t.elts) if isinstance(e, ast.Starred)]
+            if stars:
+                i = stars[0]
+                tail = len(t.elts) - i - 1
+                if len(vals) < len(t.elts) - 1:
+                    raise AbsRaise(f"ValueError: not enough values to unpack ({src(t)})")
+                for e, x in zip(t.elts[:i], vals[:i]):
+                    self.assign(e, x, env, fi)
+                self.assign(t.elts[i].value, list(vals[i:len(vals) - tail]), env, fi)  # type: ignore[attr-defined]
+                for e, x in zip(t.elts[i + 1:], vals[len(vals) - tail:] if tail else []):
+                    self.assign(e, x, env, fi)
+                return
             if len(vals) != len(t.elts):
-                raise AbsRaise("unpack mismatch")
+                raise AbsRaise(f"ValueError: wrong number of values to unpack ({src(t)})")
             for e, x in zip(t.elts, vals):
                 self.assign(e, x, env, fi)
         elif isinstance(t, ast.Attribute):
@@ -802,7 +921,13 @@ class Interp:
                 raise AnalysisError("ABSINT", f"attribute store outside fragment: {src(t)}")
         elif isinstance(t, ast.Subscript):
             obj = self.eval(t.value, env, fi)
-            idx = self.eval(t.slice, env, fi)
+            if isinstance(t.slice, ast.Slice):
+                idx = slice(self.eval(t.slice.lower, env, fi) if t.slice.lower else None,
+                            self.eval(t.slice.upper, env, fi) if t.slice.upper else None,
+                            self.eval(t.slice.step, env, fi) if t.slice.step else None)
+                v = list(self.iterate(v))
+            else:
+                idx = self.eval(t.slice, env, fi)
             if isinstance(obj, (dict, list)):
                 if getattr(obj, "_frozen", False):
                     raise AbsMutation(f"subscript store into an input container ({src(t)})",
@@ -910,7 +1035,7 @@ class Interp:
             return d
         if isinstance(n, (ast.ListComp, ast.SetComp, ast.GeneratorExp)):
             out: list[Any] = []
-            self._comp(n.generators, 0, dict(env), fi, lambda e: out.append(self.eval(n.elt, e, fi)))
+            self._comp(n.generators, 0, self._comp_env(env), fi, lambda e: out.append(self.eval(n.elt, e, fi)))
             if isinstance(n, ast.GeneratorExp):
                 return iter(out)             # one-shot, like the generator it stands for (evaluated eagerly)
             return set(self.dedupe(out)) if isinstance(n, ast.SetComp) else out
@@ -920,7 +1045,7 @@ class Interp:
             def put(e: dict[str, Any]) -> None:
                 kk = self.eval(n.key, e, fi)
                 dd[self.canon_key(dd, kk)] = self.eval(n.value, e, fi)
-            self._comp(n.generators, 0, dict(env), fi, put)
+            self._comp(n.generators, 0, self._comp_env(env), fi, put)
             return dd
         if isinstance(n, ast.Subscript):
             obj = self.eval(n.value, env, fi)
@@ -947,10 +1072,27 @@ class Interp:
                 if isinstance(v2, ast.Constant):
                     parts.append(str(v2.value))
                 elif isinstance(v2, ast.FormattedValue):
-                    parts.append(self.to_str(self.eval(v2.value, env, fi)))
+                    val = self.eval(v2.value, env, fi)
+                    if v2.conversion == ord("r"):
+                        val = self.builtin("repr", [val], {}, v2, "")
+                    elif v2.conversion == ord("a"):
+                        val = ascii(self.builtin("repr", [val], {}, v2, ""))[1:-1]
+                    elif v2.conversion == ord("s"):
+                        val = self.to_str(val)
+                    spec = self.eval(v2.format_spec, env, fi) if v2.format_spec is not None else ""
+                    if spec:
+                        if isinstance(val, (AObj, OrdInt)):
+                            raise AnalysisError("ABSINT", f"format spec on an abstract value: {src(v2)}",
+                                                loc(fi.unit.path, n) if fi else "")
+                        try:
+                            parts.append(format(val, spec))
+                        except (ValueError, TypeError) as exc:
+                            raise AbsRaise(f"{type(exc).__name__}: {exc}", loc(fi.unit.path, n) if fi else "") from exc
+                    else:
+                        parts.append(self.to_str(val))
             return "".join(parts)
         if isinstance(n, ast.Lambda):
-            return Lambda(n, env, fi)
+            return Lambda(n, env, fi, self._def_defaults(n.args, env, fi))
         if isinstance(n, ast.Yield):
             # generator functions are evaluated eagerly: the call returns the list of yielded values
             if "__yielded__" not in env:
@@ -965,9 +1107,18 @@ class Interp:
         if isinstance(n, ast.NamedExpr):
             v = self.eval(n.value, env, fi)
             env[n.target.id] = v
+            outer = env.get("__comp_outer__")
+            while outer is not None:            # inside a comprehension: the name belongs to the enclosing scope
+                outer[n.target.id] = v
+                outer = outer.get("__comp_outer__")
             return v
         raise AnalysisError("ABSINT", f"expression outside the formula fragment: {type(n).__name__} "
                                       f"{src(n)[:80]}", loc(fi.unit.path, n) if fi else "")
+
+    def _comp_env(self, env: dict[str, Any]) -> dict[str, Any]:
+        e = dict(env)
+        e["__comp_outer__"] = env
+        return e
 
     def _comp(self, gens: list[ast.comprehension], i: int, env: dict[str, Any],
               fi: Optional[FuncInfo], emit: Callable[[dict[str, Any]], None]) -> None:
@@ -1041,7 +1192,8 @@ class Interp:
             if isinstance(op, ast.BitOr):
                 res = self.dedupe(list(a) + list(b))
             elif isinstance(op, ast.BitAnd):
-                res = [x for x in a if mem(x, b)]
+                so, other = (b, a) if len(b) > len(a) else (a, b)     # CPython walks the smaller (or right) operand
+                res = [x for x in other if mem(x, so)]
             elif isinstance(op, ast.Sub):
                 res = [x for x in a if not mem(x, b)]
             else:
@@ -1186,6 +1338,8 @@ class Interp:
             return fi.unit.path
         if name in _BUILTINS or name in _BUILTIN_TYPES:
             return ("builtin", name)
+        if name in _BUILTIN_EXCEPTIONS:
+            return ("exc", name)
         if fi is not None and name in self._locals(fi):
             raise AbsRaise(f"UnboundLocalError: {name}", loc(fi.unit.path, n))
         raise AnalysisError("ABSINT", f"unbound name {name}", loc(fi.unit.path, n) if fi else "")
@@ -1276,8 +1430,15 @@ class Interp:
                 if m is not None:
                     if "property" in m.decorators():
                         return self.call(m, [obj])
+                    if any(d.split(".")[-1] == "cached_property" for d in m.decorators()):
+                        slot = f"_cached:{attr}"
+                        if slot not in obj._f:
+                            obj._f[slot] = self.call(m, [obj], skip_native=False)
+                        return obj._f[slot]
                     if m.is_static():
                         return FuncRef(m)
+                    if m.is_classmethod():
+                        return BoundMethod(ClassRef(ci), m, self.decorated_attrs(m))
                     return BoundMethod(obj, m, self.decorated_attrs(m))
                 for c in self.pm.mro(ci):
                     if attr in c.class_attrs:
@@ -1335,6 +1496,24 @@ class Interp:
             if full in self.native and not callable(self.native[full]):
                 return self.native[full]
             return ModuleRef(full)
+        if isinstance(obj, tuple) and len(obj) == 2 and obj[0] == "builtin" and attr in ("__name__", "__qualname__"):
+            return obj[1]
+        if isinstance(obj, tuple) and len(obj) == 2 and obj[0] == "builtin" and obj[1] in ("str", "bytes") \
+                and (attr in _STR_METHODS or attr == "maketrans"):
+            pyt = str if obj[1] == "str" else bytes
+            meth = getattr(pyt, attr)
+
+            def unbound(*a: Any, **k: Any) -> Any:
+                if attr != "maketrans" and (not a or not isinstance(a[0], pyt)):
+                    raise AbsRaise(f"TypeError: descriptor '{attr}' requires a '{obj[1]}' object", where)
+                if attr == "join":
+                    a = (a[0], list(self.iterate(a[1]))) + tuple(a[2:])
+                try:
+                    return meth(*a, **k)
+                except (TypeError, ValueError) as exc:
+                    raise AbsRaise(f"{type(exc).__name__}: {exc}", where) from exc
+            unbound._raw = True  # type: ignore[attr-defined]
+            return unbound
         if isinstance(obj, tuple) and len(obj) == 2 and obj[0] == "builtin" and obj[1] == "dict" and attr == "fromkeys":
             return lambda keys, value=None: {k: value for k in self.dedupe(self.iterate(keys))}
         if isinstance(obj, tuple) and attr in getattr(obj, "_fields", ()):
@@ -1347,7 +1526,12 @@ class Interp:
             return getattr(obj, attr)
         if type(obj).__module__ == "re":              # compiled patterns and match objects are values
             return self._re_attr(obj, attr, where)
-        if type(obj).__module__ in ("decimal", "fractions", "_decimal", "_pydecimal"):   # immutable numbers
+        if type(obj).__module__ == "_io" and type(obj).__name__ in ("StringIO", "BytesIO"):
+            v_ = getattr(obj, attr, _MISSING)
+            if v_ is _MISSING:
+                raise AbsRaise(f"AttributeError: {type(obj).__name__}.{attr}", where)
+            return v_
+        if type(obj).__module__ in ("decimal", "fractions", "_decimal", "_pydecimal", "string", "textwrap"):   # immutable values
             try:
                 return getattr(obj, attr)
             except AttributeError as exc:
@@ -1398,20 +1582,7 @@ class Interp:
             return self.call(f.fi, args, kwargs)
         if isinstance(f, Lambda):
             e2 = dict(f.env)
-            la = f.node.args
-            ps = [x.arg for x in la.posonlyargs + la.args]
-            for p, d in zip(ps[len(ps) - len(la.defaults):] if la.defaults else [], la.defaults):
-                e2[p] = self.eval(d, f.env, f.fi)
-            for p, v in zip(ps, args):
-                e2[p] = v
-            if la.vararg is not None:
-                e2[la.vararg.arg] = tuple(args[len(ps):])
-            elif len(args) > len(ps):
-                raise AbsRaise(f"TypeError: lambda takes {len(ps)} positional arguments but {len(args)} were given", where)
-            e2.update(kwargs)
-            for p in ps:
-                if p not in e2:
-                    raise AbsRaise(f"TypeError: lambda missing argument {p!r}", where)
+            e2.update(self._bind_local(f.node.args, "<lambda>", f.defaults, args, kwargs))
             return self.eval(f.node.body, e2, f.fi)
         if isinstance(f, LocalFunc):
             return self.call_local(f, args, kwargs)
@@ -1446,6 +1617,8 @@ class Interp:
             return None
         if isinstance(f, tuple) and f and f[0] == "builtin":
             return self.builtin(f[1], args, kwargs, n, where)
+        if isinstance(f, tuple) and len(f) == 2 and f[0] == "exc":
+            return AExc(f[1], tuple(args), f"{f[1]}({', '.join(repr(a) if isinstance(a, (str, int, float)) else '...' for a in args)})")
         if isinstance(f, tuple) and f and f[0] == "subclasses":
             base = f[1]
             return [ClassRef(c) for c in self.pm.classes.values()
@@ -1554,6 +1727,29 @@ class Interp:
             hook = self.native.get(f.name)
             if hook is not None:
                 return hook(*args, **kwargs)
+            root_mod = f.name.split(".")[0]
+            if root_mod in _PURE_MODULES and "." in f.name:
+                # functions of the standard library over plain values: computed by the library itself
+                def plain(x: Any) -> bool:
+                    return x is None or isinstance(x, (str, bytes, int, float, bool)) or \
+                        (isinstance(x, (list, tuple, dict, set, frozenset)) and all(plain(y) for y in (x.items() if isinstance(x, dict) else x)))
+                conv = [list(a) if hasattr(a, "__next__") else a for a in args]
+                if all(plain(a) for a in conv) and all(plain(v) for v in kwargs.values()):
+                    import importlib
+                    target: Any = importlib.import_module(root_mod)
+                    try:
+                        for part in f.name.split(".")[1:]:
+                            target = getattr(target, part)
+                        out_ = target(*conv, **kwargs)
+                    except AttributeError:
+                        raise AnalysisError("ABSINT", f"unknown library function {f.name}", where)
+                    except (TypeError, ValueError, KeyError, IndexError) as exc:
+                        raise AbsRaise(f"{type(exc).__name__}: {exc}", where) from exc
+                    return iter(list(out_)) if hasattr(out_, "__next__") else out_
+            last = f.name.split(".")[-1]
+            if last.endswith(("Exception", "Error")) and last[:1].isupper():
+                # an exception class of a library: the object is only ever raised or inspected as text
+                return AExc(last, tuple(args), f"{last}({', '.join(repr(a) if isinstance(a, (str, int, float)) else '...' for a in args)})")
             raise AnalysisError("ABSINT", f"call of external {f.name} outside fragment", where)
         raise AnalysisError("ABSINT", f"call of {src(getattr(n, 'func', n))} outside fragment", where)
 
@@ -1574,6 +1770,10 @@ class Interp:
                 ln = len(v)
                 tag = getattr(v, "_ordtag", None)
                 return OrdInt(ln, tag[0], tag[1]) if tag else ln
+            if hasattr(v, "__next__") or isinstance(v, (int, float)) or v is None:
+                raise AbsRaise(f"TypeError: object of type '{type(v).__name__}' has no len()", where)
+            if isinstance(v, (bytes, bytearray, range)) or type(v).__name__ in ("dict_values", "dict_items", "Counter", "deque"):
+                return len(v)
             raise AnalysisError("ABSINT", f"len() of {type(v).__name__}", where)
         if name == "isinstance":
             v, t = args
@@ -1628,9 +1828,14 @@ class Interp:
         if name == "sorted":
             seq = list(self.iterate(args[0]))
             key = kwargs.get("key")
-            if key is not None:
-                return self._sort([(self._apply(key, x), x) for x in seq], keyed=True)
-            return self._sort(seq, keyed=False)
+            if kwargs.get("reverse"):
+                # reverse=True keeps the original order of equal elements: sort the reversed list, reverse back
+                seq = list(reversed(seq))
+            res_ = self._sort([(self._apply(key, x), x) for x in seq], keyed=True) if key is not None \
+                else self._sort(seq, keyed=False)
+            if kwargs.get("reverse"):
+                res_ = list(reversed(res_))
+            return res_
         if name == "str":
             return self.to_str(args[0]) if args else ""
         if name == "bool":
@@ -1648,11 +1853,21 @@ class Interp:
                 if "default" in kwargs:
                     return kwargs["default"]
                 raise AbsRaise("ValueError: empty sequence", where)
-            return (min if name == "min" else max)(seq)
+            keyf = kwargs.get("key")
+            best = seq[0]
+            bk = self._apply(keyf, best) if keyf is not None else best
+            for x in seq[1:]:
+                k_ = self._apply(keyf, x) if keyf is not None else x
+                if (self._lt(k_, bk) if name == "min" else self._lt(bk, k_)):
+                    best, bk = x, k_
+            return best
         if name == "enumerate":
             return iter(list(enumerate(self.iterate(args[0]), *args[1:], **kwargs)))
         if name == "zip":
-            return iter(list(zip(*[list(self.iterate(a)) for a in args])))
+            cols = [list(self.iterate(a)) for a in args]
+            if kwargs.get("strict") and len({len(c) for c in cols}) > 1:
+                raise AbsRaise("ValueError: zip() arguments have different lengths", where)
+            return iter(list(zip(*cols)))
         if name == "range":
             return range(*[a.__index__() if isinstance(a, OrdInt) else a for a in args])
         if name == "map":
@@ -2048,12 +2263,14 @@ _EXC_PARENTS = {
     "ElementNotFound": {"FlamaException", "Exception"}, "StatisticsError": {"ValueError", "Exception"},
     "ParseError": {"SyntaxError", "Exception"}, "NotImplementedError": {"RuntimeError", "Exception"},
 }
-_STR_METHODS = {"startswith", "endswith", "lower", "upper", "replace", "strip", "lstrip", "rstrip",
+_STR_METHODS = {"translate", "expandtabs", "center", "ljust", "rjust", "swapcase", "isdecimal", "isprintable", "istitle",
+                "isascii", "format_map", "startswith", "endswith", "lower", "upper", "replace", "strip", "lstrip", "rstrip",
                 "split", "rsplit", "join", "casefold", "find", "rfind", "index", "format", "isdigit",
                 "isalpha", "isalnum", "isspace", "count", "encode", "decode", "title", "capitalize",
                 "partition", "rpartition", "splitlines", "zfill", "isidentifier", "isupper",
                 "islower", "isnumeric", "removeprefix", "removesuffix"}
 _MISSING = object()
+_PURE_MODULES = ("textwrap", "string", "keyword", "unicodedata", "html", "shlex", "math", "itertools", "fnmatch", "posixpath")
 _BUILTINS = {"object", "slice", "NotImplemented", "map", "filter", "divmod", "pow", "repr", "type", "iter", "vars", "open", "setattr", "getattr", "dir", "round", "print", "reversed", "hash", "id", "len", "any", "all", "sum", "next", "isinstance", "list", "tuple", "set", "sorted",
              "str", "bool", "int", "min", "max", "enumerate", "zip", "range", "hasattr",
              "callable", "float", "abs", "dict", "frozenset", "cast"}
@@ -2070,6 +2287,29 @@ def _load(t: ast.expr) -> ast.expr:
     """Copy of an assignment target usable in load context."""
     c = ast.parse(ast.unparse(t), mode="eval").body
     return c
+
+
+class AExc:
+    """An exception object that was constructed but not (yet) raised."""
+    def __init__(self, kind: str, args: tuple, text: str) -> None:
+        self.kind, self.args, self.text = kind, args, text
+
+    def __str__(self) -> str:
+        return str(self.args[0]) if len(self.args) == 1 else (str(self.args) if self.args else "")
+
+
+_BUILTIN_EXCEPTIONS = ("BaseException", "Exception", "ArithmeticError", "AssertionError", "AttributeError", "EOFError",
+                       "FileNotFoundError", "FileExistsError", "IOError", "ImportError", "IndexError", "KeyError",
+                       "KeyboardInterrupt", "LookupError", "NameError", "NotImplementedError", "OSError", "OverflowError",
+                       "PermissionError", "RecursionError", "RuntimeError", "StopIteration", "SyntaxError", "TypeError",
+                       "UnboundLocalError", "UnicodeDecodeError", "UnicodeEncodeError", "UnicodeError", "ValueError",
+                       "ZeroDivisionError")
+
+
+class _Suppress:
+    """contextlib.suppress(*exceptions)."""
+    def __init__(self, kinds: set[str]) -> None:
+        self.kinds = kinds
 
 
 class ADeque(list):
